@@ -122,7 +122,18 @@ type wModel struct {
 
 func (m *wModel) Backend() ml.Backend                                { return m.be }
 func (m *wModel) Encode(s string, addSpecial bool) ([]int32, error) { return nil, nil }
-func (m *wModel) Decode(ids []int32) (string, error)                { return "x", nil }
+func (m *wModel) Decode(ids []int32) (string, error) {
+	// token 1 prints "a", token 2 prints "b" (so that a stop string can span generated tokens)
+	out := ""
+	for _, id := range ids {
+		if id == 1 {
+			out += "a"
+		} else {
+			out += "b"
+		}
+	}
+	return out, nil
+}
 func (m *wModel) Is(id int32, sp model.Special) bool                { return false }
 
 func (m *wModel) Forward(ctx ml.Context, batch input.Batch) (ml.Tensor, error) {
@@ -219,7 +230,8 @@ func VerifC07Slots(nReq int, maxPrompt int, maxPredict int, multi int, canShift 
 	fm.Cache = cache
 	const numCtx, slots = 4, 2
 	cache.Init(be, ml.DTypeF32, slots, numCtx, 2)
-	ic := &InputCache{numCtx: numCtx, enabled: true, slots: []InputCacheSlot{{Id: 0}, {Id: 1}}, cache: cache, multiUserCache: multi != 0}
+	ic := &InputCache{numCtx: numCtx, enabled: true, slots: []InputCacheSlot{{Id: 0}, {Id: 1}}, cache: cache, multiUserCache: multi&1 != 0}
+	withStops := multi&2 != 0
 	s := &Server{batchSize: 2, parallel: slots, seqs: make([]*Sequence, slots), seqsSem: semaphore.NewWeighted(slots), cache: ic, model: fm}
 	s.cond = sync.NewCond(&s.mu)
 	fm.srv = s
@@ -259,6 +271,10 @@ func VerifC07Slots(nReq int, maxPrompt int, maxPredict int, multi int, canShift 
 			seq := &Sequence{inputs: in, numPromptInputs: n, numPredict: 1 + verifChoice(maxPredict), numKeep: int32(verifChoice(2)),
 				pendingResponses: []string{}, responses: make(chan string, 64), quit: make(chan bool, 1), embedding: make(chan []float32, 1),
 				sampler: sample.NewSampler(0, 0, 0, 0, -1, nil)}
+			if withStops {
+				// the generated tokens alternate a, b: the stop spans two of them and trims the slot's record
+				seq.stop = []string{"ab", "ba"}
+			}
 			s.seqsSem.TryAcquire(1)
 			var err error
 			seq.cache, seq.inputs, err = ic.LoadCacheSlot(seq.inputs)
